@@ -286,6 +286,27 @@ def _partition(case, bad):
                         if clf and meth == "predict":
                             if any(v not in set(numpy.asarray(model.classes_).tolist()) for v in out.tolist()):
                                 bad("predicted label not in classes_", cond, "%r %s" % (sorted(set(out.tolist())), desc))
+                    # the caller's batch buffer refilled in place between two calls (same array object, other rows): outputs follow the
+                    # rows that are in the buffer at the time of the call
+                    if ys is first_ys or not real:
+                        buf = numpy.array(P, copy=True)
+                        perm_ = numpy.arange(len(P))[::-1]
+                        for meth in (("predict", "predict_proba", "transform_bins") if clf else ("predict", "transform_bins")):
+                            try:
+                                buf[...] = P
+                                o1 = numpy.asarray(getattr(model, meth)(buf))
+                                buf[...] = P[perm_]
+                                o2 = numpy.asarray(getattr(model, meth)(buf))
+                                buf[...] = P
+                                o3 = numpy.asarray(getattr(model, meth)(buf))
+                            except Exception as ex:
+                                bad("%s raises %s" % (meth, type(ex).__name__), cond + ",batch buffer refilled in place", "%s %s" % (str(ex)[:200], desc))
+                                continue
+                            if not (numpy.allclose(o2.astype(float), o1[perm_].astype(float), rtol=1e-9, atol=1e-12)
+                                    and numpy.array_equal(o1, o3)):
+                                bad("a row's %s is not its bucket model's (or the fallback's) output" % meth, cond + ",batch buffer refilled in place",
+                                    "second call on the same array object after its rows were replaced: %r, expected %r %s" % (
+                                        o2.tolist()[:6], o1[perm_].tolist()[:6], desc))
                     # the same rows as float32 / integers: the local models' float64 outputs must come back unchanged
                     for dt in (numpy.float32, numpy.int64):
                         Pd = X.astype(dt)
